@@ -49,3 +49,9 @@ CORPUS += [
         'site_likelihoods = freqs @ torch.sum(props * partials[post_indexing[-1][0]], -3)\nreturn torch.sum(torch.log(site_likelihoods + 1e-300) * weights, -1)',
         expect=[('C03.G', 'calculate_treelikelihood_discrete::underflow-surfaces-as-minus-infinity')]),
 ]
+CORPUS += [
+    Mut('c03-threshold-at-the-smallest-normal', 'torchtree/evolution/tree_likelihood.py', 'TreeLikelihoodModel.__init__', 'self.threshold = …',
+        'self.threshold = torch.finfo(subst_model.frequencies.dtype).tiny', expect=[('C03.P', 'TreeLikelihoodModel.threshold::two-children-at-the-threshold-do-not-underflow::float64')]),
+    Mut('c03-benign-threshold-square-root-of-tiny', 'torchtree/evolution/tree_likelihood.py', 'TreeLikelihoodModel.__init__', 'self.threshold = …',
+        'self.threshold = math.sqrt(torch.finfo(subst_model.frequencies.dtype).tiny)', benign=True),
+]
